@@ -198,6 +198,11 @@ pub fn reset_globals() {
 /// The context of the database currently under test (for hook events, which carry no db).
 pub static CUR_CX: Mutex<Option<Arc<Cx>>> = Mutex::new(None);
 
+/// Raw (ingredient, id) key for protocol events: stable identity, no abstraction.
+pub fn raw_key(k: salsa::DatabaseKeyIndex) -> String {
+    format!("{}#{}", ing_name(k.ingredient_index()), idstr(k.key_index()))
+}
+
 pub fn abs_key_global(k: salsa::DatabaseKeyIndex) -> String {
     let cx = CUR_CX.lock().unwrap_or_else(|e| e.into_inner()).clone();
     abs_key(cx.as_deref(), k)
